@@ -41,6 +41,8 @@ def plan(tier, seed):
     specs.append({'shard': 'named-' + name, 'curve': name,
                   'n': 60 if q else 600})
   specs.append({'shard': 'consts'})
+  for i in range(2 if q else 6):
+    specs.append({'shard': 'cross-%d' % i, 'rounds': 2 if q else 5, 'weight': 4})
   return specs
 
 
@@ -482,8 +484,54 @@ def run_consts(ctx, spec):
             k, ec_util.CURVE_FACTORY.get(v, 'absent')), {'curve': k})
 
 
+def run_cross(ctx, spec):
+  """All named curves inside one process, interleaved: every operation that
+  keeps per-curve state (comb cache of BatchMultiplyG, point tables) is asked
+  for the same scalars on one curve after the other, twice, in two orders."""
+  from paranoid_crypto import paranoid_pb2
+  from paranoid_crypto.lib import ec_util
+  rng = ctx.rng('cross')
+  curves = {}
+  for name in NAMED:
+    rc = ec_util.CURVE_FACTORY[getattr(paranoid_pb2.CurveType, name)]
+    curves[name] = (rc, mec.Curve(int(rc.mod), int(rc.a), int(rc.b),
+                                  (int(rc.g[0]), int(rc.g[1])), int(rc.n),
+                                  name))
+  shared = [1, 2, 3, 5, 255, 256, 2 ** 32, 2 ** 64 + 1, 2 ** 160 - 1] + [
+      rng.bits(b) for b in (8, 64, 190, 190, 250, 250, 300)]
+  order = list(NAMED)
+  for rnd in range(spec['rounds']):
+    rng.shuffle(order)
+    for name in order:
+      if not ctx.want('%d/%s' % (rnd, name)):
+        continue
+      rc, mc = curves[name]
+      cmp_ = Cmp(ctx, name)
+      scal = shared + [mc.n - 1, mc.n + 1, rng.below(mc.n)]
+      rng.shuffle(scal)
+      got = call(ctx, 'BatchMultiplyG', rc.BatchMultiplyG, list(scal))
+      ctx.count('cross_curve_calls')
+      if got is None:
+        continue
+      for k, g_ in zip(scal, got):
+        ctx.distinct('cross', name, k)
+        cmp_.pt('BatchMultiplyG', g_, mc.mulg(k), (k, 'after-other-curves'))
+      k = rng.choice(shared)
+      cmp_.pt('Multiply', call(ctx, 'Multiply', rc.Multiply, rc.g, k),
+              mc.mulg(k), ('G', k, 'after-other-curves'))
+      pts = [mc.mulg(x) for x in (3, 70000, 5)]
+      res = call(ctx, 'BatchDL', rc.BatchDL, [M2R(P) for P in pts], 2 ** 17)
+      if res is not None and [None if v is None else int(v) for v in res] != [
+          3, 70000, 5]:
+        ctx.violation('cross-curve-batchdl', '%s: BatchDL after searches on '
+                      'other curves returned %r' % (name, res), {'curve': name})
+  ctx.sample({'curves_in_one_process': len(curves), 'rounds': spec['rounds']})
+
+
 def run(ctx, spec):
   s = spec['shard']
+  if s.startswith('cross'):
+    return run_cross(ctx, spec)
   if s.startswith('tiny'):
     run_tiny(ctx, spec)
   elif s.startswith('batch'):
@@ -500,7 +548,7 @@ def finalize(agg, tier):
   for k in ('op:Add', 'op:AddJacobian', 'op:BatchMultiplyG', 'op:BatchAddList',
             'op:BatchAddSubtractX', 'op:Multiply', 'op:PointTable',
             'lists_with_zero_denominator', 'curve_constant_facts',
-            'small_batches',
+            'small_batches', 'cross_curve_calls',
             'openssl_crosschecks'):
     if not c.get(k):
       inc.append('reach counter %s is zero' % k)
